@@ -74,7 +74,8 @@ type Prog struct {
 	Persistent bool
 	Blocking   bool
 	NTopics    int
-	TopicNames []string // NTopics+1 distinct names (the last one is the side topic)
+	TopicNames []string // NTopics+NSide distinct names (the last NSide are the side topics)
+	NSide      int
 	Pubs       []Publisher
 	Subs       []SubSpec
 	Noise      []uint8
@@ -98,7 +99,24 @@ func (p Prog) topicName(i int) string {
 	return fmt.Sprintf("t%d", i)
 }
 
-func (p Prog) sideTopic() string { return p.topicName(p.NTopics) }
+// side topics: NSide names after the NTopics main ones; a nested publish picks one by message id
+func (p Prog) nSide() int {
+	if p.NSide < 1 {
+		return 1
+	}
+	return p.NSide
+}
+
+func (p Prog) sideTopicOf(id string) string {
+	h := 0
+	for i := 0; i < len(id); i++ {
+		h = h*31 + int(id[i])
+	}
+	if h < 0 {
+		h = -h
+	}
+	return p.topicName(p.NTopics + h%p.nSide())
+}
 
 // Opts biases the generator for the property under test.
 type Opts struct {
@@ -123,7 +141,8 @@ func Gen(t *rapid.T, o Opts) Prog {
 	}
 	// distinct topic names from a pool of 64 (implementations that shard or hash topics must not couple them)
 	seen := map[int]bool{}
-	for len(p.TopicNames) < p.NTopics+1 {
+	p.NSide = 6
+	for len(p.TopicNames) < p.NTopics+p.NSide {
 		k := rapid.IntRange(0, 63).Draw(t, "topicName")
 		if seen[k] {
 			k = (k + len(p.TopicNames)*17 + 1) % 64
@@ -180,7 +199,12 @@ func Gen(t *rapid.T, o Opts) Prog {
 		p.Subs = append(p.Subs, s)
 	}
 	if hasSidePublisher && rapid.Bool().Draw(t, "sideSubscriber") {
-		p.Subs = append(p.Subs, SubSpec{Topic: -1, Side: true, When: 0, Behav: map[string]Behav{}})
+		// some of the side topics have a subscriber (acks at once, never publishes)
+		for k := 0; k < p.NSide; k++ {
+			if rapid.Bool().Draw(t, "sideTopicHasSubscriber") {
+				p.Subs = append(p.Subs, SubSpec{Topic: k, Side: true, When: 0, Behav: map[string]Behav{}})
+			}
+		}
 	}
 	if o.AllowForced && rapid.IntRange(0, 2).Draw(t, "forcedOverlap") == 0 {
 		f := &Forced{}
@@ -392,8 +416,10 @@ func Run(p Prog) *History {
 	}, watermill.NopLogger{})
 	h.GC = g
 	var sub message.Subscriber = g
+	// one decorator value applied Depth times (a Router applies one decorator value to every handler's subscriber)
+	dec := message.MessageTransformSubscriberDecorator(func(*message.Message) {})
 	for i := 0; i < p.Depth; i++ {
-		sub, _ = message.MessageTransformSubscriberDecorator(func(*message.Message) {})(sub)
+		sub, _ = dec(sub)
 	}
 	ctl := lib.Install()
 	defer ctl.Uninstall()
@@ -424,9 +450,9 @@ func Run(p Prog) *History {
 
 	h.Subs = make([]*SubRec, len(p.Subs))
 	for i, s := range p.Subs {
-		tn := p.sideTopic()
-		if !s.Side {
-			tn = p.topicName(s.Topic)
+		tn := p.topicName(s.Topic)
+		if s.Side {
+			tn = p.topicName(p.NTopics + s.Topic)
 		}
 		h.Subs[i] = &SubRec{Index: i, Topic: tn}
 	}
@@ -458,12 +484,21 @@ func Run(p Prog) *History {
 			pr := &PubRec{Pub: pi, Call: c, Topic: p.topicName(pc.Topic)}
 			for i := 0; i < pc.N; i++ {
 				id := MsgID(pi, c, i)
-				m := message.NewMessage(id, []byte("payload-"+id))
+				// the id travels in the payload; UUIDs are "only used for debugging" and may be empty or repeated
+				uuid := id
+				switch (pi*7 + c*3 + i) % 5 {
+				case 1:
+					uuid = ""
+				case 3:
+					uuid = "same-uuid"
+				}
+				m := message.NewMessage(uuid, []byte("payload-"+id))
 				// every third message carries no metadata at all (the id travels in the UUID)
 				if (pi+c+i)%3 != 0 {
-					m.Metadata.Set("k", fmt.Sprintf("v%d", i))
-					if i%2 == 1 {
-						m.Metadata.Set("empty", "")
+					// direct map assignment: the harness must not depend on Metadata.Set
+					m.Metadata["k"] = fmt.Sprintf("v%d", i)
+					if (pi+c+i)%2 == 1 {
+						m.Metadata["empty"] = ""
 					}
 				}
 				pr.IDs = append(pr.IDs, id)
@@ -648,7 +683,7 @@ func (h *History) consume(g *gochannel.GoChannel, i int, ch <-chan *message.Mess
 	total := 0
 	var handle func(m *message.Message, whileHold bool)
 	handle = func(m *message.Message, whileHold bool) {
-		id := m.UUID
+		id := strings.TrimPrefix(string(m.Payload), "payload-")
 		r := &Receipt{Sub: i, ID: id, Msg: m, Snap: lib.SnapOf(m), T: lib.Tick(), Marker: m.Context().Value(markerKey{}), WhileHold: whileHold}
 		if e := m.Context().Err(); e != nil {
 			r.CtxErr = e.Error()
@@ -727,7 +762,7 @@ func (h *History) consume(g *gochannel.GoChannel, i int, ch <-chan *message.Mess
 			return
 		case BPublishSideThenAck:
 			sm := message.NewMessage("side-"+id, []byte("side"))
-			if err := g.Publish(h.Prog.sideTopic(), sm); err == nil {
+			if err := g.Publish(h.Prog.sideTopicOf(id), sm); err == nil {
 				h.mu.Lock()
 				h.SidePub++
 				h.mu.Unlock()
